@@ -3,6 +3,7 @@ package dataset
 import (
 	"encoding/json"
 	"fmt"
+	"strings"
 	"time"
 
 	"github.com/mimiro-io/datahub/internal/server"
@@ -40,6 +41,12 @@ func c12RunSched(w *server.VWorld, sc *server.SchedScenario, prefix []int, horiz
 	if ds := w.Dsm.GetDataset(h.DsName("A")); ds != nil {
 		s.NameLock(&ds.WriteLock, "WriteLock:A")
 	}
+	if ds := w.Dsm.GetDataset(h.DsName("B")); ds != nil {
+		s.NameLock(&ds.WriteLock, "WriteLock:B")
+	}
+	// compactasync: a compaction request as POST /compact hands it to the hub's one worker (CompactAsync: accepted
+	// and run in a goroutine of the worker's, or refused because a compaction is running)
+	acceptedA := false
 	errs := make([][]string, len(sc.Threads))
 	var bodies []func()
 	for ti, th := range sc.Threads {
@@ -50,6 +57,10 @@ func c12RunSched(w *server.VWorld, sc *server.SchedScenario, prefix []int, horiz
 				switch op.K {
 				case "compact":
 					err = c12Compact(w, h, "A", op.N)
+				case "compactasync":
+					if c12Worker(w).CompactAsync(h.DsName(op.DS), c12Strategy(op.N)) == nil && op.DS == "A" {
+						acceptedA = true
+					}
 				case "batch":
 					// implementation only: the model is applied by the oracle in both orders
 					ds := w.Dsm.GetDataset(h.DsName(op.DS))
@@ -106,6 +117,9 @@ func c12RunSched(w *server.VWorld, sc *server.SchedScenario, prefix []int, horiz
 						} else {
 							hh.ModelApply(op)
 						}
+					}
+					if kind == "compact" && op.K == "compactasync" && op.DS == "A" && acceptedA {
+						m.Compact("A")
 					}
 				}
 			}
@@ -168,12 +182,19 @@ func c12Sched(r *engine.Run) {
 		// the worker has compacted the name before, the dataset was deleted and created again since
 		{Name: "M5-compact-vs-write-after-recreate", Pre: []server.VOp{w("v1r2"), dup, {K: "compact", N: 1}, {K: "delete", DS: "A"}, {K: "create", DS: "A"}, w("v1r2"), dup},
 			Threads: [][]server.VOp{{{K: "compact", N: 1}}, {w("v2r2")}}},
+		// requests as the HTTP handler hands them to the worker: one for A, one for another dataset (refused while the
+		// first runs, or the other way round), and a writer
+		{Name: "M6-two-compaction-requests-vs-write", Pre: []server.VOp{w("v1r2"), dup},
+			Threads: [][]server.VOp{{{K: "compactasync", DS: "A", N: 1}}, {{K: "compactasync", DS: "B", N: 1}}, {w("v2r2")}}},
 		{Name: "M4-compact-vs-delete-write-middle-duplicate", Pre: []server.VOp{w("v1"), dup, w("v2")}, Threads: [][]server.VOp{{{K: "compact", N: 1}}, {w("dv1")}}},
 	}
 	for _, sc := range scs {
 		bound, budget := 2, 60
 		if !r.Quick() {
 			bound, budget = 3, 900
+		}
+		if strings.HasPrefix(sc.Name, "M6") && r.Quick() {
+			budget = 240
 		}
 		engine.RunSched(r, engine.SchedSpec{Name: sc.Name, WorkerArgs: []string{"worker", "sched-compact"}, Scenario: sc, Bound: bound, Horizon: 2500, BudgetS: budget})
 	}
